@@ -555,6 +555,7 @@ class _PFcols:
         self.row_groups = []
         self.schema = SchemaShim()
         self.partition_meta = {}
+        self.file_scheme = "hive"
 
 
 def h_unknown_filter_column(g0: int, g1: int, g2: int, ngroups: int, flat: bool) -> bool:
@@ -839,6 +840,7 @@ class _PF:
         self.cats = {"p": []}
         self.schema = SchemaShim()
         self.partition_meta = {}
+        self.file_scheme = "hive"
 
 
 def _two_groups(lo, hi, p, k):
